@@ -5,8 +5,12 @@ Tie: the real CAMTransmissionManagement (virtual T_CheckCamGen timer, virtual cl
 coder) and the real VAMTransmissionManagement (report driven, wall clock patched) are run op by op on generated
 trajectories; every emitted payload is decoded with the repository's coder; per op the canonical line
 "sent? containers? generationDeltaTime? which report? + management state" is compared with the Lean model.
+The virtual timer separates a timer's EXPIRY from the run of its CALLBACK, so that stop() / start() can be placed
+between the two (threading.Timer.cancel() cannot stop a callback that is already past its cancel check).
+Failures are injected at every point of a transmission attempt: while the PDU is filled from the report, in the
+coder, in the BTP request, in the LDM feed after the BTP request (CAM); in the LDM feed, the coder, the BTP request (VAM).
 Oracle: the timing rules of the property text / TS 103 900 §6.1.3 / TS 103 300-3 §6.4.1 (`oracle_cam`, `oracle_vam`),
-written over the timed emission log only, independent of the code and of the model.
+written over the timed log of TRANSMISSIONS only, independent of the code and of the model.
 """
 from __future__ import annotations
 
@@ -20,6 +24,7 @@ import types
 
 from common import Infra, corpus
 import realstack as rs
+import gen_facflow
 
 import flexstack.facilities.ca_basic_service.cam_transmission_management as ctm
 import flexstack.facilities.vru_awareness_service.vam_transmission_management as vtm
@@ -31,19 +36,25 @@ MODULES = ["Props.C10"]
 DRIVERS = ["CamTM", "VamTM"]
 TRUSTED = [
     "modelled rather than verified: IEEE-754 comparisons of heading/speed (inputs on binary-exact grids: 0.25 deg, "
-    "1/8 m/s, so float and integer comparisons coincide), the haversine distance (independent oracle in the harness, "
-    "positions kept >= 2 cm from the 4 m threshold), dateutil parsing of the report time, the float expression in "
-    "GenerationDeltaTime.from_timestamp (decoded generationDeltaTime compared with the exact integer value), "
-    "asn1tools UPER (every payload decoded)",
-    "the virtual threading.Timer / clock (TimeService.time returns ms+0.5 so that int(time*1000) is exact) and the "
-    "capturing BTP router of harness/props/c10.py",
+    "1/8 m/s, so float and integer comparisons coincide), the haversine distance (the model is parametric in the "
+    "distance function; the harness supplies the value of its independent oracle for the model's own reference "
+    "position, positions kept >= 2 cm from the 4 m threshold), dateutil parsing of the report time, the float "
+    "expression in GenerationDeltaTime.from_timestamp (decoded generationDeltaTime compared with the exact integer "
+    "value), asn1tools UPER (every payload decoded)",
+    "the virtual threading.Timer (expiry and callback separated) / clock (TimeService.time returns ms+0.5 so that "
+    "int(time*1000) is exact), the capturing BTP router, the LDM stubs and the failure-injecting coder proxy of "
+    "harness/props/c10.py; the ast pass of harness/gen_facflow.py",
 ]
 ASSUMPTIONS = [
     "time is observed in integer milliseconds; reports carry a `time` field (ISO-8601, millisecond precision)",
-    "CAM minimum interval is judged within one activation (start..stop); a stop/start cycle begins a new activation "
-    "whose first CAM is immediate (TS 103 900 §6.1.2)",
-    "VAM: report timestamps are non-decreasing; reports are < 65.4 s apart for the upper bound; sends succeed; "
-    "the low-frequency container is timed on the wall clock at sending (as the code does)",
+    "threads: the T_CheckCamGen callback runs atomically with respect to start()/stop() (the race covered is "
+    "stop()/start() between a timer's expiry and the start of its callback; a stop() in the middle of a running "
+    "callback is not modelled)",
+    "the low-frequency container rule is judged per activation (TS 103 900 §6.1.3: first CAM after activation), the "
+    "minimum interval T_GenCamMin over ALL consecutive CAMs (also across a stop/start cycle)",
+    "VAM: report timestamps are non-decreasing; reports are < 65.4 s apart for the upper bound; "
+    "the low-frequency container is timed on the wall clock at sending (as the code does); a VAM that also carries a "
+    "cluster-operation container may carry the low-frequency container early (TS 103 300-3 clause 6.2)",
     "known finding C10-KF1: VAM triggers 2-4 (position/speed/heading change) are not gated by T_GenVamMin "
     "(pinned by 4 unit tests that expect a VAM 1 ms after the previous one)",
 ]
@@ -53,6 +64,11 @@ LEAP_MS = 5000                 # TAI-UTC leap seconds since 2004 included in Tim
 T_GEN_CAM_MIN, T_GEN_CAM_MAX, T_LF_CAM = 100, 1000, 500       # TS 103 900 §6.1.3
 T_GEN_VAM_MIN, T_GEN_VAM_MAX, T_LF_VAM = 100, 5000, 2000      # TS 103 300-3 Table 16
 EARTH_R = 6371000.0
+FAIL_KINDS = {0: "none", 1: "build", 2: "encode", 3: "btp", 4: "ldm"}
+
+
+class Injected(RuntimeError):
+    """a failure injected by the harness (never an error of the code under test)"""
 
 
 # ------------------------------------------------------------------------------------------------
@@ -70,7 +86,9 @@ class HalfClock(rs.VClock):
 
 
 class Sched:
-    """virtual threading.Timer registry"""
+    """virtual threading.Timer registry.  A timer leaves the registry when it EXPIRES (`pop`: its wait completed and
+    was not cancelled); its callback is run by the caller, possibly later: `cancel()` on an expired timer has no
+    effect, exactly as with threading.Timer."""
 
     def __init__(self, clock, late):
         self.clock, self.heap, self.seq = clock, [], 0
@@ -120,12 +138,39 @@ class CapRouter:
 
     def btp_data_request(self, request):
         if self.fail_next:
-            raise RuntimeError("injected BTP failure")
+            raise Injected("injected BTP failure")
         self.sent.append((self.clock.ms, request))
 
     def take(self):
         s, self.sent = self.sent, []
         return s
+
+
+class LdmStub:
+    """stands in for the LDM adapter: counts the feeds, optionally fails"""
+
+    def __init__(self):
+        self.fail_next, self.fed = False, 0
+
+    def add_provider_data_to_ldm(self, msg):
+        if self.fail_next:
+            raise Injected("injected LDM failure")
+        self.fed += 1
+
+
+class CoderProxy:
+    """the repository's coder with an injectable encode failure"""
+
+    def __init__(self, coder):
+        self._coder, self.fail_next = coder, False
+
+    def encode(self, msg):
+        if self.fail_next:
+            raise Injected("injected encoding failure")
+        return self._coder.encode(msg)
+
+    def __getattr__(self, name):
+        return getattr(self._coder, name)
 
 
 def iso(ms):
@@ -154,6 +199,7 @@ def circ_diff(a, b):
 
 RATES = [1, 2, 4, 5, 10, 20, 25, 50]
 STYLES = ["constant", "accelerating", "turning", "stopgo", "random", "missing", "gaps", "still"]
+CAM_MODES = ["plain", "restart", "late-start", "fail", "jitter", "race"]
 
 
 def gen_reports(rng, style, dur_ms, period, t_first, t0):
@@ -212,14 +258,19 @@ def pick_t0(rng):
     return 1_700_000_000_000 + rng.randrange(0, 100_000_000_000)
 
 
-def gen_cam_scenario(rng, dur_ms, style=None, wrap=False):
+def wrap_t0(rng, t0, dur_ms, lo=1000):
+    """move t0 so that generationDeltaTime wraps `lo`.. ms into the run"""
+    return t0 + (65536 - its_of(t0) % 65536) - rng.randrange(lo, max(lo + 1000, min(dur_ms, 60000)))
+
+
+def gen_cam_scenario(rng, dur_ms, style=None, wrap=False, mode=None):
     style = style or rng.choice(STYLES)
     rate = rng.choice(RATES)
     t0 = pick_t0(rng)
     if wrap:     # generationDeltaTime wraps a few seconds into the run
-        t0 += (65536 - its_of(t0) % 65536) - rng.randrange(1000, max(2000, min(dur_ms, 60000)))
+        t0 = wrap_t0(rng, t0, dur_ms)
     events = gen_reports(rng, style, dur_ms, 1000 // rate, rng.randrange(0, 1000 // rate), t0)
-    mode = rng.choice(["plain", "plain", "restart", "late-start", "fail", "jitter"])
+    mode = mode or rng.choice(["plain", "plain", "restart", "late-start", "fail", "fail", "jitter", "race"])
     ctl = [[0, "start"]]
     if mode == "restart":
         ctl = []
@@ -231,8 +282,26 @@ def gen_cam_scenario(rng, dur_ms, style=None, wrap=False):
         ctl.insert(0, [0, rng.choice(["stop", "start"])])
     elif mode == "late-start":
         ctl = [[rng.randrange(500, 3000), "start"], [dur_ms - rng.randrange(100, 2000), "stop"]]
+    elif mode == "race":
+        # stop() / stop()+start() placed between a timer's expiry and the run of its callback
+        ctl = [[0, "start"]]
+        t, on = rng.randrange(100, 1500), True
+        while t < dur_ms:
+            if on:
+                k = rng.choice(["race-stop", "race-stop", "race-restart", "race-restart", "stop"])
+                ctl.append([t, k, rng.choice([0, 0, 1, 3, 30])])
+                on = k == "race-restart"
+            else:
+                ctl.append([t, "start"])
+                on = True
+            t += rng.choice([7, 50, 100, 130, 250, 700, 1200, 2600])
     n_checks = dur_ms // 100 + 5
-    fails = sorted(rng.sample(range(n_checks), max(1, n_checks // 25))) if mode == "fail" else []
+    fails = []
+    if mode == "fail":
+        kinds = rng.choice([[1, 2, 3, 4], [4], [3], [2], [2, 3], [1, 4]])
+        idx = sorted(rng.sample(range(n_checks), max(2, n_checks // 10)))
+        # runs of consecutive failing checks as well (a retry that fails again)
+        fails = [[i, rng.choice(kinds)] for i in idx] + [[i + 1, rng.choice(kinds)] for i in idx[::4]]
     late = [rng.choice([0, 0, 1, 5, 20, 40]) for _ in range(7)] if mode == "jitter" else [0]
     role = rng.choice([0, 0, 0, 5, 6])
     return {"kind": "cam", "style": style, "mode": mode, "rate": rate, "t0": t0, "dur": dur_ms,
@@ -241,23 +310,24 @@ def gen_cam_scenario(rng, dur_ms, style=None, wrap=False):
             "events": sorted(events + ctl, key=lambda e: (e[0], 0 if e[1] != "report" else 1))}
 
 
-def gen_vam_scenario(rng, dur_ms, style=None, wrap=False, rate=None, tgen=100):
+def gen_vam_scenario(rng, dur_ms, style=None, wrap=False, rate=None, tgen=100, faults=None):
     style = style or rng.choice(STYLES)
     rate = rate or rng.choice(RATES)
     t0 = pick_t0(rng)
     if wrap:
-        t0 += (65536 - its_of(t0) % 65536) - rng.randrange(1000, max(2000, min(dur_ms, 60000)))
+        t0 = wrap_t0(rng, t0, dur_ms)
     events = gen_reports(rng, style, dur_ms, 1000 // rate, rng.randrange(0, 1000 // rate), t0)
-    if style == "missing":     # the VAM path needs time; lat/lon/speed may be missing
-        pass
     gate_mode = rng.choice(["open", "open", "open", "passive-phases"])
+    faults = faults if faults is not None else rng.choice([None, None, "fail", "cluster", "both"])
     for e in events:
         g = 1
         if gate_mode == "passive-phases" and (e[0] // 2500) % 3 == 1:
             g = 0
         e.append(g)
+        e.append(1 if faults in ("cluster", "both") and (e[0] // 700) % 5 == 2 else 0)        # cluster-operation container
+        e.append(rng.choice([1, 2, 3]) if faults in ("fail", "both") and rng.random() < 0.08 else 0)   # failing attempt
     exact = rng.random() < 0.15   # wall clock on the binary-exact 125 ms grid (tests the 2 s LF boundary exactly)
-    return {"kind": "vam", "style": style, "rate": rate, "t0": t0, "dur": dur_ms, "tgen": tgen,
+    return {"kind": "vam", "style": style, "rate": rate, "t0": t0, "dur": dur_ms, "tgen": tgen, "faults": faults,
             "wall_lag": 0 if exact else rng.choice([0, 1, 2, 7]), "exact": exact, "events": events}
 
 
@@ -308,9 +378,14 @@ def parse_ms(s):
     return int((dt - datetime.datetime(1970, 1, 1)) // datetime.timedelta(milliseconds=1))
 
 
+OFFGRID = {"on": False}     # set while an off-grid scenario (oracle only, no model comparison) is running
+
+
 def cdeg(x):
     v = x * 100
     if v != int(v):
+        if OFFGRID["on"]:
+            return int(round(v))
         raise Infra(f"heading {x} not on the 0.01 degree grid")
     return int(v)
 
@@ -318,92 +393,162 @@ def cdeg(x):
 def mms(x):
     v = x * 1000
     if v != int(v):
+        if OFFGRID["on"]:
+            return int(round(v))
         raise Infra(f"speed {x} not on the mm/s grid")
     return int(v)
 
 
-def run_cam(sc, coder, quiet_log=True):
+def offgrid(rng, sc):
+    """the same scenario with arbitrary doubles for heading / speed (not on the binary-exact grids): judged by the
+    oracle only (the integer model is not compared), threshold neighbourhoods of 1e-6 excluded by construction"""
+    sc = dict(sc, offgrid=True, events=[list(e) for e in sc["events"]])
+    for e in sc["events"]:
+        if e[1] == "report":
+            tpv = dict(e[2])
+            if "speed" in tpv:
+                tpv["speed"] = max(0.0, tpv["speed"] + rng.uniform(-0.06, 0.06))
+            if "track" in tpv:
+                tpv["track"] = (tpv["track"] + rng.uniform(-0.12, 0.12)) % 360.0
+            e[2] = tpv
+    return sc
+
+
+def pos7(lat, lon):
+    return f"{round(lat * 1e7)} {round(lon * 1e7)}"
+
+
+def fails_of(sc):
+    """check index -> failure kind (1 build, 2 encode, 3 btp, 4 ldm); old corpus files: list of indices = btp"""
+    out = {}
+    for f in sc.get("fails", []):
+        if isinstance(f, (list, tuple)):
+            out[int(f[0])] = int(f[1])
+        else:
+            out[int(f)] = 3
+    return out
+
+
+def run_cam(sc, coder, variants=(1, 1), quiet_log=True):
     """drive the real CAMTransmissionManagement through scenario `sc`.
     returns (model_lines, real_lines, oracle_log, info)"""
     clock = HalfClock(sc["t0"])
     sched = Sched(clock, sc.get("late", [0]))
     cap = CapRouter(clock)
+    ldm = LdmStub()
+    pcoder = CoderProxy(coder)
     lines, reals, log = [], [], []
-    info = {"checks": 0, "cams": 0, "nudges": 0, "tol": 0}
+    info = {"checks": 0, "cams": 0, "nudges": 0, "tol": 0, "races": 0, "escaped": 0, "late_callbacks": 0}
     saved = (ctm.threading, ctm.random)
     logger = logging.getLogger("ca_basic_service")
     old_level = logger.level
     logger.setLevel(logging.CRITICAL + 10)
-    ctm.threading = types.SimpleNamespace(Timer=sched.Timer, Lock=threading.Lock)
+    ctm.threading = types.SimpleNamespace(Timer=sched.Timer, Lock=threading.Lock, RLock=threading.RLock)
     ctm.random = types.SimpleNamespace(uniform=lambda a, b: sc["delay"] / 1000.0)
+    build = {"fail": False}
+    msg_cls = ctm.CooperativeAwarenessMessage
+    orig_fill = msg_cls.fullfill_with_tpv_data
+
+    def fill(self_, tpv):
+        if build["fail"]:
+            raise Injected("injected construction failure")
+        return orig_fill(self_, tpv)
+
+    msg_cls.fullfill_with_tpv_data = fill
+    OFFGRID["on"] = bool(sc.get("offgrid"))
     try:
         with clock:
             vd = ctm.VehicleData(station_id=4242, station_type=sc["station_type"], vehicle_role=sc["role"],
                                  special_vehicle_data=(("emergencyContainer", {"lightBarSirenInUse": (b"\x80", 2)})
                                                        if sc["special"] else None))
-            obj = ctm.CAMTransmissionManagement(cap, coder, vd, None)
+            obj = ctm.CAMTransmissionManagement(cap, pcoder, vd, ldm)
             tw = 1 if sc["station_type"] in (2, 3, 4) else 0
-            lines.append(f"init {sc['role']} {tw} {1 if sc['special'] else 0}")
+            lines.append(f"init {sc['role']} {tw} {1 if sc['special'] else 0} {variants[0]} {variants[1]}")
 
             def st():
-                p = sched.pending()
-                return f"st {int(obj._active)} {p if p < 2 else 'many'} {obj.t_gen_cam} {obj._n_gen_cam_counter} {obj._cam_count}"
+                tm = obj._timer
+                tracked = int(tm is not None and not tm.cancelled and not tm.fired)
+                ref = "-" if obj._last_cam_lat is None or obj._last_cam_lon is None else \
+                    f"{round(obj._last_cam_lat * 1e7)},{round(obj._last_cam_lon * 1e7)}"
+                return (f"st {int(obj._active)} {sched.pending()} {tracked} {obj.t_gen_cam} {obj._n_gen_cam_counter} "
+                        f"{obj._cam_count} {ref}")
 
             reals.append(st())
             cur = None            # (rid, tpv) last delivered report
-            last_pos = None       # position of the last CAM that carried one
+            last_pos = None       # position lastly included in a transmitted CAM of this activation (property level)
             rid = 0
-            fails = set(sc.get("fails", []))
+            fails = fails_of(sc)
 
-            def deliver(t_rel, tpv, nudge=False):
+            def deliver(tpv):
                 nonlocal cur, rid
                 rid += 1
                 obj.location_service_callback(tpv)
                 cur = (rid, tpv)
                 its = its_of(parse_ms(tpv["time"])) if "time" in tpv else None
-                lines.append("report %d %s %s %s %d" % (
+                lines.append("report %d %s %s %s %s" % (
                     rid, "-" if its is None else its, cdeg(tpv["track"]) if "track" in tpv else "-",
-                    mms(tpv["speed"]) if "speed" in tpv else "-", 1 if ("lat" in tpv and "lon" in tpv) else 0))
+                    mms(tpv["speed"]) if "speed" in tpv else "-",
+                    pos7(tpv["lat"], tpv["lon"]) if ("lat" in tpv and "lon" in tpv) else "- -"))
                 reals.append(st())
                 log.append(("report", clock.ms, rid, tpv))
-                stray = cap.take()
-                if stray:
+                if cap.take():
                     log.append(("stray", clock.ms, "report"))
 
-            def dist_mm():
-                if cur is None or last_pos is None or "lat" not in cur[1] or "lon" not in cur[1]:
+            def dist_to(ref):
+                """(mm, m) from `ref` (lat, lon) to the current report"""
+                if cur is None or ref is None or ref[0] is None or ref[1] is None or "lat" not in cur[1] or "lon" not in cur[1]:
                     return 0, None
-                d = haversine_oracle(last_pos[0], last_pos[1], cur[1]["lat"], cur[1]["lon"])
+                d = haversine_oracle(ref[0], ref[1], cur[1]["lat"], cur[1]["lon"])
                 return int(round(d * 1000)), d
 
-            def fire():
+            def code_ref():
+                return (obj._last_cam_lat, obj._last_cam_lon)
+
+            def expire():
+                """the wait of the next timer completes (not cancelled): from now on cancel() cannot stop its callback"""
+                clock.ms = max(clock.ms, sched.next_due())
+                _, _, tm = sched.pop()
+                tracked = int(obj._timer is tm)
+                tm.fired = True
+                lines.append(f"expire {tracked}")
+                reals.append(st())
+                log.append(("expire", clock.ms))
+                return tm
+
+            def callback(tm):
                 nonlocal last_pos
-                clock.ms = sched.next_due()
                 now = int(TimeService.time() * 1000)
                 if now != clock.ms:
                     raise Infra("virtual clock is not millisecond exact")
                 # keep the cached position >= 2 cm away from the 4 m threshold (extra, nudged report)
                 if obj._active:
                     for _ in range(6):
-                        dmm, d = dist_mm()
-                        if d is None or abs(d - 4.0) >= 0.02:
+                        near = [d for d in (dist_to(code_ref())[1], dist_to(last_pos)[1]) if d is not None and abs(d - 4.0) < 0.02]
+                        if not near:
                             break
                         t2 = dict(cur[1])
                         t2["lat"] = t2["lat"] + (7e-7 if t2["lat"] < 80 else -7e-7)
                         info["nudges"] += 1
-                        deliver(clock.ms - sc["t0"], t2, nudge=True)
-                dmm, d = dist_mm()
-                _, _, tm = sched.pop()
+                        deliver(t2)
+                dmm, _ = dist_to(code_ref())          # for the model: distance from ITS reference position (checked in `st`)
+                _, d = dist_to(last_pos)              # for the oracle: from the position lastly included in a CAM
                 idx = info["checks"]
                 info["checks"] += 1
-                fail = idx in fails
-                cap.fail_next = fail
+                fail = fails.get(idx, 0)
+                build["fail"], pcoder.fail_next, cap.fail_next, ldm.fail_next = fail == 1, fail == 2, fail == 3, fail == 4
                 was_active = obj._active
-                tm.fired = True
-                tm.function(*tm.args, **tm.kwargs)
-                cap.fail_next = False
+                escaped = None
+                try:
+                    tm.function(*tm.args, **tm.kwargs)
+                except Injected:
+                    escaped = "injected"
+                except Exception as e:     # an exception leaving the callback would end a real timer thread
+                    escaped = type(e).__name__
+                    info["escaped"] += 1
+                finally:
+                    build["fail"] = pcoder.fail_next = cap.fail_next = ldm.fail_next = False
                 sent = cap.take()
-                lines.append(f"check {now} {dmm} {0 if fail else 1}")
+                lines.append(f"check {now} {dmm} {fail}")
                 cam = None
                 if len(sent) > 1:
                     log.append(("stray", clock.ms, "two CAMs in one check"))
@@ -422,7 +567,28 @@ def run_cam(sc, coder, quiet_log=True):
                     info["cams"] += 1
                 else:
                     reals.append("none " + st())
-                log.append(("check", clock.ms, {"fail": fail, "dist": d, "cam": cam, "cur": cur, "active": was_active}))
+                log.append(("check", clock.ms, {"fail": fail, "dist": d, "cam": cam, "cur": cur, "active": was_active,
+                                                "escaped": escaped}))
+
+            def do_start():
+                nonlocal last_pos
+                was = obj._active
+                obj.start()
+                if not was:
+                    last_pos = None
+                lines.append("start")
+                reals.append(st())
+                log.append(("start", clock.ms))
+                if cap.take():
+                    log.append(("stray", clock.ms, "start"))
+
+            def do_stop():
+                obj.stop()
+                lines.append("stop")
+                reals.append(st())
+                log.append(("stop", clock.ms))
+                if cap.take():
+                    log.append(("stray", clock.ms, "stop"))
 
             for ev in sc["events"] + [[sc["dur"], "end"]]:
                 t_abs = sc["t0"] + ev[0]
@@ -430,44 +596,51 @@ def run_cam(sc, coder, quiet_log=True):
                     nd = sched.next_due()
                     if nd is None or nd > t_abs:
                         break
-                    fire()
+                    callback(expire())
                 clock.ms = max(clock.ms, t_abs)
                 if ev[1] == "report":
-                    deliver(ev[0], ev[2])
+                    deliver(ev[2])
                 elif ev[1] == "start":
-                    was = obj._active
-                    obj.start()
-                    if not was:
-                        last_pos = None
-                    lines.append("start")
-                    reals.append(st())
-                    log.append(("start", clock.ms))
-                    if cap.take():
-                        log.append(("stray", clock.ms, "start"))
+                    do_start()
                 elif ev[1] == "stop":
-                    obj.stop()
-                    lines.append("stop")
-                    reals.append(st())
-                    log.append(("stop", clock.ms))
-                    if cap.take():
-                        log.append(("stray", clock.ms, "stop"))
+                    do_stop()
+                elif ev[1] in ("race-stop", "race-restart"):
+                    # the next timer expires; before its callback runs another thread calls stop() (and start())
+                    if sched.next_due() is None:
+                        do_stop()
+                        if ev[1] == "race-restart":
+                            do_start()
+                        continue
+                    tm = expire()
+                    info["races"] += 1
+                    do_stop()
+                    if ev[1] == "race-restart":
+                        do_start()
+                    clock.ms += int(ev[2]) if len(ev) > 2 else 0
+                    info["late_callbacks"] += 1
+                    callback(tm)
+            log.append(("end", clock.ms))
             obj.stop()
     finally:
+        OFFGRID["on"] = False
+        msg_cls.fullfill_with_tpv_data = orig_fill
         ctm.threading, ctm.random = saved
         logger.setLevel(old_level)
     return lines, reals, log, info
 
 
 def oracle_cam(log, P):
-    """TS 103 900 §6.1.3 / property text over the timed log.  returns [(rule, time, detail)]"""
+    """TS 103 900 §6.1.3 / property text over the timed log.  returns [(rule, time, detail)].
+    A CAM in the log is a transmission (a request that reached the BTP router), whatever the sender recorded."""
     out = []
     active = False
     cur = None
     last_t = None            # time of the last CAM of this activation
+    glast = None             # time of the last CAM of any activation
     last_lf = None
     ref = {"track": None, "pos": None, "speed": None}   # values lastly included in a CAM
     prev_check = None
-    clean = True             # since the last CAM every check was serviceable (report present, send ok, <= P apart)
+    clean = True             # since the last CAM every check was serviceable (report present, no failure, <= P apart)
     start_t = None
     for e in log:
         kind, t = e[0], e[1]
@@ -477,16 +650,22 @@ def oracle_cam(log, P):
             if not active:
                 active, last_t, last_lf, prev_check, clean, start_t = True, None, None, None, True, t
                 ref = {"track": None, "pos": None, "speed": None}
-        elif kind == "stop":
-            active = False
+        elif kind in ("stop", "end"):
+            base = prev_check if prev_check is not None else start_t
+            if active and t - base > P:     # the T_CheckCamGen loop died (or never ran) during this activation
+                out.append(("timer", t, f"no check for the last {t - base} ms > {P} of the activation"))
+            active = active and kind == "end"
         elif kind == "report":
             cur = (e[2], e[3])
         elif kind == "check":
             c = e[2]
             cam = c["cam"]
+            if c.get("escaped") not in (None, "injected"):
+                out.append(("no-crash", t, f"{c['escaped']} left the T_CheckCamGen callback"))
             if not active:
                 if cam is not None:
-                    out.append(("silent", t, "CAM while the service is not active"))
+                    out.append(("silent", t, "CAM handed to BTP while the service is not active (after stop() returned)"))
+                    glast = t
                 continue
             base = prev_check if prev_check is not None else start_t
             if t - base > P:
@@ -496,17 +675,19 @@ def oracle_cam(log, P):
             if cam is not None:
                 if last_t is not None and t - last_t < T_GEN_CAM_MIN:
                     out.append(("min-gap", t, f"{t - last_t} ms after the previous CAM"))
+                elif glast is not None and t - glast < T_GEN_CAM_MIN:
+                    out.append(("min-gap-restart", t, f"{t - glast} ms after the previous CAM (sent before a stop/start cycle)"))
                 if last_t is not None and clean and t - last_t > T_GEN_CAM_MAX + P:
                     out.append(("max-gap", t, f"{t - last_t} ms after the previous CAM"))
                 want_lf = last_lf is None or t - last_lf >= T_LF_CAM
                 if cam["dec"]["lf"] != want_lf:
                     out.append(("lf", t, f"LF container {'present' if cam['dec']['lf'] else 'absent'}, "
-                                         f"{'first CAM' if last_lf is None else str(t - last_lf) + ' ms after the last LF'}"))
+                                         f"{'first CAM' if last_lf is None else str(t - last_lf) + ' ms after the last CAM that carried it'}"))
                 if cam["bad"]:
                     out.append(("gdt" if all(b.startswith("gdt") for b in cam["bad"]) else "latest-report", t, "; ".join(cam["bad"])))
                 if cam["dec"]["lf"]:
                     last_lf = t
-                last_t, clean = t, True
+                last_t, glast, clean = t, t, True
                 tpv = cur[1] if cur else {}
                 if "track" in tpv:
                     ref["track"] = tpv["track"]
@@ -518,7 +699,8 @@ def oracle_cam(log, P):
                 if serviceable:
                     tpv = cur[1]
                     if last_t is None:
-                        out.append(("first", t, "no CAM at the first check with position data after activation"))
+                        if not (glast is not None and t - glast < T_GEN_CAM_MIN):     # else: held back, T_GenCamMin
+                            out.append(("first", t, "no CAM at the first check with position data after activation"))
                     else:
                         el = t - last_t
                         dyn = []
@@ -540,15 +722,46 @@ def oracle_cam(log, P):
     return out
 
 
+def classify_cam(rule):
+    """findings of this round (status fixed: nothing is suppressed, the id only labels the report)"""
+    return {"gdt": "C10-F2", "min-gap-restart": "C10-F5"}.get(rule)
+
+
+def detect_cam_variants(coder):
+    """which variant is the code?  (ldmIsolated, restartHold), by running the two witnesses on the real code"""
+    t0 = 1_700_000_000_000
+    rep = {"time": iso(t0), "lat": 41.0, "lon": 2.0, "track": 90.0, "speed": 1.0}
+    base = {"kind": "cam", "t0": t0, "dur": 400, "delay": 0, "late": [0], "role": 0, "station_type": 5, "special": False}
+    # the LDM feed of the first CAM fails: is the CAM counted (`_cam_count` = last but one field of the state line)?
+    _, reals, _, _ = run_cam(dict(base, fails=[[0, 4]], events=[[0, "report", rep], [0, "start"]]), coder)
+    first = next((r for r in reals if r.startswith("cam ")), None)
+    if first is None:
+        raise Infra("variant probe: no CAM at the first check")
+    isolated = 1 if first.split()[-2] == "1" else 0
+    # CAM at 0, stop at 3, start at 7: is the first CAM of the second activation sent at 7 (no hold) or held back?
+    sc = dict(base, fails=[], events=[[0, "report", rep], [0, "start"], [3, "stop"], [7, "start"]])
+    _, _, log, _ = run_cam(sc, coder)
+    times = [e[1] - t0 for e in log if e[0] == "check" and e[2]["cam"] is not None]
+    if not times:
+        raise Infra("variant probe: no CAM at all")
+    hold = 0 if (len(times) >= 2 and times[1] - times[0] < T_GEN_CAM_MIN) else 1
+    return isolated, hold
+
+
 # ------------------------------------------------------------------------------------------------
 # VAM: run the real code
 
 
+CLUSTER_OP = {"clusterJoinInfo": {"clusterId": 5, "joinTime": 8}}
+
+
 class Gate:
-    """clustering manager stand-in: only the transmission gate (cluster containers belong to C18)"""
+    """clustering manager stand-in: the transmission gate and, on request, a cluster-operation container (the cluster
+    state machine itself belongs to C18)"""
 
     def __init__(self):
         self.open = True
+        self.cluster_op = False
 
     def should_transmit_vam(self):
         return self.open
@@ -557,7 +770,7 @@ class Gate:
         return None
 
     def get_cluster_operation_container(self):
-        return None
+        return dict(CLUSTER_OP) if self.cluster_op else None
 
 
 def decode_vam(coder, payload):
@@ -567,7 +780,7 @@ def decode_vam(coder, payload):
     hf = p["vruHighFrequencyContainer"]
     return {"gdt": d["vam"]["generationDeltaTime"], "lat": rp["latitude"], "lon": rp["longitude"],
             "heading": hf["heading"]["value"], "speed": hf["speed"]["speedValue"],
-            "lf": "vruLowFrequencyContainer" in p}
+            "lf": "vruLowFrequencyContainer" in p, "cop": "vruClusterOperationContainer" in p}
 
 
 def detect_vam_gated(coder):
@@ -579,35 +792,52 @@ def detect_vam_gated(coder):
     return 0 if reals[2].startswith("vam") else 1
 
 
-def run_vam(sc, coder, gated):
+def detect_vam_lf_after_send(coder):
+    """1 = last_lf_vam_time is recorded after the BTP request succeeded (repaired), 0 = when the container is attached"""
+    t0 = 1_700_000_000_000
+    rep = lambda k: {"time": iso(t0 + k), "lat": 41.0, "lon": 2.0, "speed": 1.0, "track": 90.0}
+    sc = {"kind": "vam", "t0": t0, "tgen": 100, "wall_lag": 0, "exact": False, "events": [
+        [0, "report", rep(0), 1, 0, 0], [2000, "report", rep(2000), 1, 0, 3], [2100, "report", rep(2100), 1, 0, 0]]}
+    _, reals, _, _ = run_vam(sc, coder, gated=0)
+    return 1 if reals[3].startswith("vam 1 ") else 0
+
+
+def run_vam(sc, coder, gated, lfa=1):
     clock = HalfClock(sc["t0"])
     cap = CapRouter(clock)
     gate = Gate()
+    ldm = LdmStub()
+    pcoder = CoderProxy(coder)
     lines, reals, log = [], [], []
-    info = {"reports": 0, "vams": 0, "nudges": 0, "errors": 0}
+    info = {"reports": 0, "vams": 0, "nudges": 0, "errors": 0, "injected": 0}
     logger = logging.getLogger("vru_basic_service")
     old_level = logger.level
     logger.setLevel(logging.CRITICAL + 10)
     real_time = _time.time
+    OFFGRID["on"] = bool(sc.get("offgrid"))
     try:
         with clock:
             ddp = vtm.DeviceDataProvider(station_id=777, station_type=1)
-            obj = vtm.VAMTransmissionManagement(cap, coder, ddp, None, gate)
+            obj = vtm.VAMTransmissionManagement(cap, pcoder, ddp, ldm, gate)
             obj.t_genvam = sc.get("tgen", 100)
-            lines.append(f"init {gated} {obj.t_genvam}")
+            lines.append(f"init {gated} {obj.t_genvam} {lfa}")
 
             def st():
                 g = obj.last_vam_generation_delta_time
-                return "st %s %d %d %d %d %d" % (
+                lf = obj.last_lf_vam_time
+                return "st %s %d %d %d %d %d %s" % (
                     "-" if g is None else g.msec, round(obj.last_sent_position[0] * 1e7),
                     round(obj.last_sent_position[1] * 1e7), round(obj.last_vam_speed * 100),
-                    round(obj.last_vam_heading * 10), int(obj.is_first_vam))
+                    round(obj.last_vam_heading * 10), int(obj.is_first_vam),
+                    "-" if lf is None else round(lf * 1000 - 0.25))
 
             reals.append(st())
             last_lf_wall = None
             rid = 0
             for ev in sc["events"]:
-                t_rel, _, tpv, g = ev
+                t_rel, _, tpv, g = ev[:4]
+                cop = int(ev[4]) if len(ev) > 4 else 0
+                fail = int(ev[5]) if len(ev) > 5 else 0
                 rid += 1
                 info["reports"] += 1
                 wall = sc["t0"] + t_rel + sc.get("wall_lag", 0)
@@ -619,31 +849,39 @@ def run_vam(sc, coder, gated):
                 clock.ms = max(clock.ms, wall)
                 wall = clock.ms
                 gate.open = bool(g)
+                gate.cluster_op = bool(cop)
                 its = its_of(parse_ms(tpv["time"])) if "time" in tpv else None
                 pos = ("lat" in tpv and "lon" in tpv)
-                lines.append("report %d %s %s %s %s %s %d %d" % (
+                lines.append("report %d %s %s %s %s %s %d %d %d %d" % (
                     rid, "-" if its is None else its,
                     int(tpv["lat"] * 10000000) if pos else "-", int(tpv["lon"] * 10000000) if pos else "-",
                     mms(tpv["speed"]) if "speed" in tpv else "-", cdeg(tpv["track"]) if "track" in tpv else "-",
-                    wall, int(bool(g))))
+                    wall, int(bool(g)), cop, 1 if fail else 0))
                 err = None
+                ldm.fail_next, pcoder.fail_next, cap.fail_next = fail == 1, fail == 2, fail == 3
                 _time.time = (lambda w=wall: w / 1000.0) if sc.get("exact") else (lambda w=wall: (w + 0.5) / 1000.0)
                 try:
                     obj.location_service_callback(tpv)
+                except Injected:
+                    err = "injected"
+                    info["injected"] += 1
                 except Exception as e:      # judged by the oracle (generation must not fail) and shown in the line
                     err = type(e).__name__
                     info["errors"] += 1
                 finally:
                     _time.time = real_time
+                    ldm.fail_next = pcoder.fail_next = cap.fail_next = False
                 sent = cap.take()
                 vam = None
-                if err is not None:
+                if err not in (None, "injected"):
                     reals.append(f"err {err} " + st())
                 elif sent:
                     dec = decode_vam(coder, sent[0][1].data)
                     bad = reflects(dec, tpv)
                     if sent[0][1].destination_port != 2018:
                         bad.append("port")
+                    if dec["cop"] != bool(cop):
+                        bad.append("cluster-operation container")
                     vam = {"dec": dec, "bad": bad}
                     reals.append(f"vam {int(dec['lf'])} {dec['gdt']} {rid if not bad else -1} " + st())
                     if dec["lf"]:
@@ -652,8 +890,10 @@ def run_vam(sc, coder, gated):
                 else:
                     reals.append("none " + st())
                 log.append({"rid": rid, "ts": parse_ms(tpv["time"]) if "time" in tpv else None, "wall": wall,
-                            "gate": bool(g), "vam": vam, "err": err, "n": len(sent), "tpv": tpv})
+                            "gate": bool(g), "vam": vam, "err": err, "n": len(sent), "tpv": tpv, "cop": bool(cop),
+                            "fail": fail})
     finally:
+        OFFGRID["on"] = False
         _time.time = real_time
         logger.setLevel(old_level)
     return lines, reals, log, info
@@ -670,10 +910,13 @@ def oracle_vam(log, tgen=T_GEN_VAM_MIN):
     first_seen = False
     for e in log:
         ts = e["ts"]
+        failed = bool(e.get("fail")) or e["err"] == "injected"
         if e["n"] > 1:
             out.append(("one-per-report", e["rid"], "more than one VAM for one report", False))
-        if e["err"]:
+        if e["err"] and e["err"] != "injected":
             out.append(("no-fail", e["rid"], f"location callback raised {e['err']}", False))
+        if e["vam"] is not None and e.get("fail"):
+            out.append(("failed-send", e["rid"], "a VAM reached BTP although the transmission attempt was made to fail", False))
         if ts is not None and prev_ts is not None:
             R = max(R, ts - prev_ts)
         if e["vam"] is not None:
@@ -682,17 +925,21 @@ def oracle_vam(log, tgen=T_GEN_VAM_MIN):
             if last_ts is not None and ts is not None and ts - last_ts < T_GEN_VAM_MIN:
                 out.append(("min-gap", e["rid"], f"{ts - last_ts} ms (report timestamps) after the previous VAM", True))
             want_lf = last_lf is None or e["wall"] - last_lf >= T_LF_VAM
-            if e["vam"]["dec"]["lf"] != want_lf:
-                out.append(("lf", e["rid"], f"LF container {'present' if e['vam']['dec']['lf'] else 'absent'}, "
-                                            f"{'first VAM' if last_lf is None else str(e['wall'] - last_lf) + ' ms after the last LF'}", False))
+            has_lf = e["vam"]["dec"]["lf"]
+            if want_lf and not has_lf:
+                out.append(("lf", e["rid"], "LF container absent, " + (
+                    "first VAM" if last_lf is None else f"{e['wall'] - last_lf} ms after the last VAM that carried it"), False))
+            if has_lf and not want_lf and not e.get("cop"):
+                out.append(("lf", e["rid"], f"LF container present {e['wall'] - last_lf} ms after the last VAM that carried it "
+                                            "(no cluster operation)", False))
             if e["vam"]["bad"]:
                 out.append(("gdt" if all(b.startswith("gdt") for b in e["vam"]["bad"]) else "latest-report", e["rid"],
                             "; ".join(e["vam"]["bad"]), False))
-            if e["vam"]["dec"]["lf"]:
+            if has_lf:
                 last_lf = e["wall"]
             last_ts, R, quiet, first_seen = ts, 0, False, True
         else:
-            if not e["gate"] or e["err"] or ts is None:
+            if not e["gate"] or e["err"] or failed or ts is None:
                 quiet = True
             elif not first_seen:
                 out.append(("first", e["rid"], "no VAM at the first report after activation", False))
@@ -720,11 +967,11 @@ def trim(sc, t_limit):
     return s
 
 
-def check_cam_batch(ctx, coder, scenarios, tag):
+def check_cam_batch(ctx, coder, scenarios, tag, variants):
     all_lines, spans = [], []
     for i, sc in enumerate(scenarios):
-        lines, reals, log, info = run_cam(sc, coder)
-        P = 100 + max(sc.get("late", [0]))
+        lines, reals, log, info = run_cam(sc, coder, variants)
+        P = 100 + max(sc.get("late", [0])) + max([int(e[2]) for e in sc["events"] if e[1].startswith("race") and len(e) > 2] or [0])
         viol = oracle_cam(log, P)
         ctx.evals(len(lines))
         ctx.cover(f"cam_style_{sc.get('style')}")
@@ -734,19 +981,30 @@ def check_cam_batch(ctx, coder, scenarios, tag):
         ctx.cover("cam_sent", info["cams"])
         ctx.cover("cam_pos_nudges", info["nudges"])
         ctx.cover("cam_virtual_s", sc["dur"] // 1000)
+        ctx.cover("cam_expiry_then_stop_races", info["races"])
         for e in log:
-            if e[0] == "check" and e[2]["cam"]:
-                d = e[2]["cam"]["dec"]
-                ctx.cover("cam_with_lf" if d["lf"] else "cam_without_lf")
-                if d["gdt"] < 200 or d["gdt"] > 65335:
-                    ctx.cover("cam_gdt_near_wrap")
-                ctx.nontrivial(("cam", tag, i, e[1], d["lf"], d["vlf"], d["gdt"]))
+            if e[0] == "check":
+                c = e[2]
+                if c["fail"]:
+                    ctx.cover(f"cam_check_with_injected_{FAIL_KINDS[c['fail']]}_failure")
+                    if c["cam"] is not None:
+                        ctx.cover("cam_transmitted_despite_failure_after_btp")
+                if not c["active"]:
+                    ctx.cover("cam_callback_after_stop")
+                if c["cam"]:
+                    d = c["cam"]["dec"]
+                    ctx.cover("cam_with_lf" if d["lf"] else "cam_without_lf")
+                    if d["gdt"] < 200 or d["gdt"] > 65335:
+                        ctx.cover("cam_gdt_near_wrap")
+                    ctx.nontrivial(("cam", tag, i, e[1], d["lf"], d["vlf"], d["gdt"]))
         for rule, t, detail in viol[:3]:
             ctx.violation(f"CAM {rule}: {detail} (t={t - sc['t0']} ms, style {sc.get('style')}/{sc.get('mode')}, {sc.get('rate')} Hz)",
-                          {"kind": "cam", "rule": rule, "scenario": trim(sc, t - sc["t0"])},
-                          "C10-F2" if rule == "gdt" else None)
-        spans.append((len(all_lines), len(lines), reals, i))
-        all_lines += lines
+                          {"kind": "cam", "rule": rule, "scenario": trim(sc, t - sc["t0"])}, classify_cam(rule))
+        if sc.get("offgrid"):
+            ctx.cover("cam_offgrid_oracle_only")
+        else:
+            spans.append((len(all_lines), len(lines), reals, i))
+            all_lines += lines
         if i == 0:
             ctx.sample("cam-trajectory", {"style": sc.get("style"), "mode": sc.get("mode"), "rate_hz": sc.get("rate"),
                                           "virtual_ms": sc["dur"], "checks": info["checks"], "cams": info["cams"],
@@ -761,10 +1019,10 @@ def check_cam_batch(ctx, coder, scenarios, tag):
                     break
 
 
-def check_vam_batch(ctx, coder, scenarios, gated, tag):
+def check_vam_batch(ctx, coder, scenarios, gated, tag, lfa=1):
     all_lines, spans = [], []
     for i, sc in enumerate(scenarios):
-        lines, reals, log, info = run_vam(sc, coder, gated)
+        lines, reals, log, info = run_vam(sc, coder, gated, lfa)
         viol = oracle_vam(log)
         ctx.evals(len(lines))
         ctx.cover(f"vam_style_{sc.get('style')}")
@@ -772,15 +1030,22 @@ def check_vam_batch(ctx, coder, scenarios, gated, tag):
         ctx.cover("vam_reports", info["reports"])
         ctx.cover("vam_sent", info["vams"])
         ctx.cover("vam_lf_boundary_nudges", info["nudges"])
+        ctx.cover("vam_injected_failures", info["injected"])
         if sc.get("exact"):
             ctx.cover("vam_exact_wall_grid")
+        wrapped = False
         for e in log:
             if e["vam"]:
                 d = e["vam"]["dec"]
                 ctx.cover("vam_with_lf" if d["lf"] else "vam_without_lf")
+                if d["cop"]:
+                    ctx.cover("vam_with_cluster_operation")
                 if d["gdt"] < 200 or d["gdt"] > 65335:
                     ctx.cover("vam_gdt_near_wrap")
+                    wrapped = True
                 ctx.nontrivial(("vam", tag, i, e["rid"], d["lf"], d["gdt"]))
+        if wrapped:
+            ctx.cover("vam_runs_across_gdt_wrap")
         shown = set()
         for rule, rid, detail, early in viol:
             fid = classify_vam(rule, early, gated)
@@ -791,8 +1056,11 @@ def check_vam_batch(ctx, coder, scenarios, gated, tag):
             ctx.violation(f"VAM {rule}: {detail} (report {rid}, style {sc.get('style')}, {sc.get('rate')} Hz)",
                           {"kind": "vam", "rule": rule, "scenario": trim(sc, t_rel)},
                           fid or ("C10-F2" if rule == "gdt" else None))
-        spans.append((len(all_lines), len(lines), reals, i))
-        all_lines += lines
+        if sc.get("offgrid"):
+            ctx.cover("vam_offgrid_oracle_only")
+        else:
+            spans.append((len(all_lines), len(lines), reals, i))
+            all_lines += lines
         if i == 0:
             ctx.sample("vam-trajectory", {"style": sc.get("style"), "rate_hz": sc.get("rate"), "reports": info["reports"],
                                           "vams": info["vams"], "first_lines": lines[:5], "real": reals[:5]})
@@ -816,6 +1084,14 @@ def coders():
     return _CODERS["cam"], _CODERS["vam"]
 
 
+def _cam_sc(t0, dur, events, **kw):
+    sc = {"kind": "cam", "style": "boundary", "mode": "boundary", "rate": 20, "t0": t0, "dur": dur, "delay": 7,
+          "late": [0], "role": 0, "station_type": 5, "special": False, "fails": [],
+          "events": sorted(events, key=lambda e: (e[0], 0 if e[1] != "report" else 1))}
+    sc.update(kw)
+    return sc
+
+
 def boundary_scenarios():
     """hand-written boundary cases: elapsed exactly 99/100/101, 999/1000/1001, LF at 499/500/501, dynamics exactly at
     / just beyond the thresholds, heading across 0/360"""
@@ -831,10 +1107,44 @@ def boundary_scenarios():
                     tpv["track"] = (base["track"] + d_track) % 360.0
                     tpv["speed"] = base["speed"] + d_speed
                 ev.append([k, "report", tpv])
-            out.append({"kind": "cam", "style": "boundary", "mode": "boundary", "rate": 20, "t0": t0, "dur": 3000, "delay": 7,
-                        "late": late, "role": 0, "station_type": 5, "special": False, "fails": [],
-                        "events": sorted(ev, key=lambda e: (e[0], 0 if e[1] != "report" else 1))})
+            out.append(_cam_sc(t0, 3000, ev, late=late))
     return out
+
+
+def race_and_failure_scenarios():
+    """hand-written histories of the classes added in round 3:
+    * stop() / stop()+start() between a timer's expiry and its callback, at the first expiry of an activation, at an
+      expiry at which condition 1 / condition 2 is due, and at one at which nothing is due;
+    * a transmission attempt failing at each of the four points, at a check at which the low-frequency container is due
+      and at one at which it is not, the retry one period later, two failures in a row;
+    * stop/start cycles 1..100 ms after a CAM."""
+    out = []
+    t0 = 1_700_000_000_000
+
+    def reports(dur, period, dyn):
+        ev = []
+        for i, k in enumerate(range(0, dur, period)):
+            ev.append([k, "report", {"time": iso(t0 + k), "lat": 41.0 + (i * 2e-5 if dyn else 0.0), "lon": 2.0,
+                                     "track": (90.0 + (i % 3) * 5.0) if dyn else 90.0, "speed": 10.0}])
+        return ev
+
+    for dyn in (False, True):
+        for at in (3, 50, 1003, 1150, 2007):
+            for kind in ("race-stop", "race-restart"):
+                for gap in (0, 3):
+                    out.append(_cam_sc(t0, 3500, reports(3500, 50, dyn) + [[0, "start"], [at, kind, gap], [at + 900, "start"]],
+                                       mode="race"))
+        for fk in (1, 2, 3, 4):
+            for idx in ([0], [1], [5], [10], [10, 11], [20], [3, 4, 5, 6]):
+                out.append(_cam_sc(t0, 3500, reports(3500, 50, dyn) + [[0, "start"]], mode="fail", fails=[[i, fk] for i in idx]))
+        for off in (1, 7, 50, 93, 99, 100, 101):
+            out.append(_cam_sc(t0, 2500, reports(2500, 50, dyn) + [[0, "start"], [1010, "stop"], [1010 + off, "start"],
+                                                                    [1800, "stop"], [1800 + off, "start"]], mode="restart", delay=0))
+    return out
+
+
+def _vam_rep(t0, k, speed=1.0, track=90.0):
+    return {"time": iso(t0 + k), "lat": 41.0, "lon": 2.0, "track": track, "speed": speed}
 
 
 def vam_boundary_scenarios():
@@ -845,61 +1155,125 @@ def vam_boundary_scenarios():
         for dv in (0.0, 0.5, 0.625, 2.0):
             ev = []
             for i, k in enumerate(range(0, 6000, period)):
-                ev.append([k, "report", {"time": iso(t0 + k), "lat": 41.0, "lon": 2.0, "track": 90.0,
-                                         "speed": 1.0 + (dv if (i % 7) == 3 else 0.0)}, 1])
+                ev.append([k, "report", _vam_rep(t0, k, 1.0 + (dv if (i % 7) == 3 else 0.0)), 1])
             out.append({"kind": "vam", "style": "boundary", "rate": 1000 // period, "t0": t0, "dur": 6000, "tgen": 100,
                         "wall_lag": 0, "exact": period == 125, "events": ev})
     return out
 
 
+def vam_wrap_and_failure_scenarios():
+    """report timestamps crossing the 65.536 s generationDeltaTime wrap at every report rate (standing still: only the
+    elapsed-time trigger can fire), with every T_GenVam; failing transmission attempts at / off the LF boundary;
+    cluster-operation containers"""
+    out = []
+    base = 1_700_000_000_000
+    for period in (20, 40, 100, 200, 250, 500, 1000):
+        for tgen in (100, 1000, 5000):
+            for before in (2950, 10, 99):
+                t0 = base + (65536 - its_of(base) % 65536) - before
+                ev = [[k, "report", _vam_rep(t0, k), 1] for k in range(0, 14000, period)]
+                out.append({"kind": "vam", "style": "still-wrap", "rate": 1000 // period, "t0": t0, "dur": 14000,
+                            "tgen": tgen, "wall_lag": 0, "exact": False, "events": ev})
+    t0 = base
+    for fk in (1, 2, 3):
+        for at in ([20], [21], [20, 21], [5], [0], [0, 1]):          # report 20 = 2000 ms: LF due; 21: retry
+            ev = [[k, "report", _vam_rep(t0, k), 1, 0, (fk if i in at else 0)] for i, k in enumerate(range(0, 7000, 100))]
+            out.append({"kind": "vam", "style": "fail", "rate": 10, "t0": t0, "dur": 7000, "tgen": 100,
+                        "wall_lag": 0, "exact": False, "events": ev})
+    for cops in ([3], [3, 4, 5], [20], [19, 21], [0]):
+        ev = [[k, "report", _vam_rep(t0, k), 1, 1 if i in cops else 0, 0] for i, k in enumerate(range(0, 5000, 100))]
+        out.append({"kind": "vam", "style": "cluster-op", "rate": 10, "t0": t0, "dur": 5000, "tgen": 100,
+                    "wall_lag": 0, "exact": False, "events": ev})
+    return out
+
+
+def variants_and_facts(ctx, cam_coder, vam_coder):
+    gated = detect_vam_gated(vam_coder)
+    lfa = detect_vam_lf_after_send(vam_coder)
+    cam_var = detect_cam_variants(cam_coder)
+    ctx.extra["variant"] = {"C10-KF1": "gated (repaired)" if gated else "un-gated (code as is)",
+                            "C10-F4 cam ldm failure": "isolated (repaired)" if cam_var[0] else "aborts the bookkeeping",
+                            "C10-F5 cam restart hold": "held (repaired)" if cam_var[1] else "no hold",
+                            "C10-F6 vam lf time": "after the send (repaired)" if lfa else "before the attempt"}
+    # the facts regenerated from the source must describe the same variants as the behaviour probes
+    try:
+        facts = gen_facflow.facts()
+        for name, probe in (("CAM_LDM_ISOLATED", cam_var[0]), ("CAM_RESTART_HOLD", cam_var[1]), ("VAM_LF_TIME_AFTER_SEND", lfa)):
+            if bool(facts.get(name)) != bool(probe):
+                ctx.mismatch("variant-facts", {"fact": name}, f"behaviour probe: {probe}", f"source shape: {facts.get(name)}")
+    except Exception as e:     # reported by the generator as a broken obligation already
+        ctx.note(f"gen_facflow.facts failed: {type(e).__name__}: {e}")
+    return gated, lfa, cam_var
+
+
 def run(ctx):
     ctx.extra["rule"] = ("whole runs of the real transmission managements under a virtual clock/timer: each trajectory is a "
                          "timed list of start/stop/report events (8 motion styles x 8 report rates 1-50 Hz x start/stop/"
-                         "failure/jitter modes, generationDeltaTime wraps, hand-written threshold boundaries); "
-                         "distinct_nontrivial counts distinct emitted messages (trajectory, time, containers, gdt)")
+                         "failure/jitter/race modes, generationDeltaTime wraps, hand-written threshold boundaries, timer "
+                         "expiries racing with stop()/start(), failures injected at 4 (CAM) / 3 (VAM) points of a "
+                         "transmission attempt); distinct_nontrivial counts distinct emitted messages (trajectory, time, "
+                         "containers, gdt)")
     cam_coder, vam_coder = coders()
-    gated = detect_vam_gated(vam_coder)
-    ctx.extra["variant"] = {"C10-KF1": "gated (repaired)" if gated else "un-gated (code as is)"}
+    gated, lfa, cam_var = variants_and_facts(ctx, cam_coder, vam_coder)
     # 1 corpus
     cam_c, vam_c = [], []
     for name, c in corpus("C10"):
         sc = c.get("scenario", c)
         (cam_c if sc.get("kind") == "cam" else vam_c).append(sc)
     ctx.cover("corpus_cases", len(cam_c) + len(vam_c))
-    check_cam_batch(ctx, cam_coder, cam_c, "corpus")
-    check_vam_batch(ctx, vam_coder, vam_c, gated, "corpus")
+    check_cam_batch(ctx, cam_coder, cam_c, "corpus", cam_var)
+    check_vam_batch(ctx, vam_coder, vam_c, gated, "corpus", lfa)
     # 2 boundaries
-    check_cam_batch(ctx, cam_coder, boundary_scenarios(), "boundary")
-    check_vam_batch(ctx, vam_coder, vam_boundary_scenarios(), gated, "boundary")
+    check_cam_batch(ctx, cam_coder, boundary_scenarios(), "boundary", cam_var)
+    check_cam_batch(ctx, cam_coder, race_and_failure_scenarios(), "race-fail", cam_var)
+    check_vam_batch(ctx, vam_coder, vam_boundary_scenarios(), gated, "boundary", lfa)
+    check_vam_batch(ctx, vam_coder, vam_wrap_and_failure_scenarios(), gated, "wrap-fail", lfa)
     # 3 generated trajectories
-    n_cam, dur = ctx.scale(50, 600), ctx.scale(20_000, 60_000)
+    n_cam, dur = ctx.scale(40, 600), ctx.scale(15_000, 60_000)
     cams = [gen_cam_scenario(ctx.rng, dur, wrap=(i % 4 == 0)) for i in range(n_cam)]
     for st in STYLES:     # every style at least once
         cams.append(gen_cam_scenario(ctx.rng, dur, style=st))
-    check_cam_batch(ctx, cam_coder, cams, "gen")
-    n_vam = ctx.scale(50, 600)
-    vams = [gen_vam_scenario(ctx.rng, dur, wrap=(i % 4 == 0)) for i in range(n_vam)]
+    for md in CAM_MODES:  # every mode at least once
+        cams.append(gen_cam_scenario(ctx.rng, dur, mode=md))
+    cams += [offgrid(ctx.rng, gen_cam_scenario(ctx.rng, dur)) for _ in range(ctx.scale(6, 60))]
+    check_cam_batch(ctx, cam_coder, cams, "gen", cam_var)
+    n_vam = ctx.scale(40, 600)
+    vams = [gen_vam_scenario(ctx.rng, dur, wrap=(i % 3 == 0)) for i in range(n_vam)]
     vams += [gen_vam_scenario(ctx.rng, dur, style=st, rate=50) for st in STYLES]
-    vams += [gen_vam_scenario(ctx.rng, dur, tgen=tg) for tg in (100, 250, 1000, 5000)]
-    check_vam_batch(ctx, vam_coder, vams, gated, "gen")
+    vams += [gen_vam_scenario(ctx.rng, dur, tgen=tg, wrap=True) for tg in (100, 250, 1000, 5000)]
+    vams += [gen_vam_scenario(ctx.rng, dur, faults=f) for f in ("fail", "cluster", "both")]
+    vams += [offgrid(ctx.rng, gen_vam_scenario(ctx.rng, dur)) for _ in range(ctx.scale(6, 60))]
+    check_vam_batch(ctx, vam_coder, vams, gated, "gen", lfa)
     if ctx.thorough:      # hours of virtual time
         longs = [gen_cam_scenario(ctx.rng, 2 * 3600 * 1000, style=st) for st in ("still", "random", "stopgo")]
         for sc in longs:
             sc["events"] = [e for e in sc["events"] if e[1] != "report" or e[0] % 1000 < 1000 // sc["rate"] or sc["rate"] <= 2]
-        check_cam_batch(ctx, cam_coder, longs, "long")
+        check_cam_batch(ctx, cam_coder, longs, "long", cam_var)
         vlong = [gen_vam_scenario(ctx.rng, 3600 * 1000, style=st, rate=2) for st in ("still", "random")]
-        check_vam_batch(ctx, vam_coder, vlong, gated, "long")
+        check_vam_batch(ctx, vam_coder, vlong, gated, "long", lfa)
 
 
 def search(ctx):
+    """oracle only, on the real code: the hand-written race / failure / wrap histories again (they are the likeliest
+    witnesses of a broken structural obligation), then ~3x the generated volume with the race and failure modes and
+    the generationDeltaTime wrap over-represented"""
     cam_coder, vam_coder = coders()
     gated = detect_vam_gated(vam_coder)
+    lfa = detect_vam_lf_after_send(vam_coder)
+    cam_var = detect_cam_variants(cam_coder)
     ok = ctx.model_ok
     ctx.model_ok = False
     try:
+        check_cam_batch(ctx, cam_coder, race_and_failure_scenarios(), "search-race-fail", cam_var)
+        check_vam_batch(ctx, vam_coder, vam_wrap_and_failure_scenarios(), gated, "search-wrap-fail", lfa)
+        if ctx.violations:
+            return
         n, dur = ctx.scale(150, 900), ctx.scale(20_000, 60_000)
-        check_cam_batch(ctx, cam_coder, [gen_cam_scenario(ctx.rng, dur, wrap=(i % 3 == 0)) for i in range(n)], "search")
-        check_vam_batch(ctx, vam_coder, [gen_vam_scenario(ctx.rng, dur, wrap=(i % 3 == 0)) for i in range(n)], gated, "search")
+        modes = ["race", "fail", "restart", None]
+        check_cam_batch(ctx, cam_coder, [gen_cam_scenario(ctx.rng, dur, wrap=(i % 3 == 0), mode=modes[i % 4]) for i in range(n)],
+                        "search", cam_var)
+        check_vam_batch(ctx, vam_coder, [gen_vam_scenario(ctx.rng, dur, wrap=(i % 2 == 0), style=("still" if i % 5 == 0 else None))
+                                         for i in range(n)], gated, "search", lfa)
     finally:
         ctx.model_ok = ok
 
@@ -910,7 +1284,8 @@ def replay(ctx, obj):
     cam_coder, vam_coder = coders()
     if sc.get("kind") == "cam":
         _, _, log, info = run_cam(sc, cam_coder)
-        viol = oracle_cam(log, 100 + max(sc.get("late", [0])))
+        P = 100 + max(sc.get("late", [0])) + max([int(e[2]) for e in sc["events"] if e[1].startswith("race") and len(e) > 2] or [0])
+        viol = oracle_cam(log, P)
         for v in viol[:5]:
             print("CAM", v[0], "t=%d" % (v[1] - sc["t0"]), v[2])
         print(f"cam scenario: {info['checks']} checks, {info['cams']} CAMs, {len(viol)} rule violations")
